@@ -100,6 +100,18 @@ Area       == Stateless("area", AreaOK(E))
 AreaMeta   == Stateless("areameta", AreaMetaOK(E))
 Boundary   == Stateless("boundary", BoundaryOK(E))
 
+FaceCentre == Stateless("facecentre", FaceCentreOK(E))
+FaceAngle  == Stateless("faceangle", FaceAngleOK(E))
+Nearest    == Stateless("nearest", NearestOK(E))
+FrameCells == /\ IsEvent("framecells")
+              /\ LET r == AddCells(E.cells, 1, st.mesh)
+                     ok == r[1] /\ FrameCellsShapeOK(E)
+                 IN Judge(ok) /\ st' = [st EXCEPT !.mesh = r[2]]
+FrameEnd   == IsEvent("frameend") /\ Judge(FrameEndOK(E, st.mesh)) /\ st' = StInit
+Reflected  == Stateless("reflected", ReflectedOK(E))
+GoldenGeom == Stateless("goldengeom", GoldenGeomOK(E))
+GoldenLookup == Stateless("goldenlookup", GoldenLookupOK(E))
+
 TraceNext ==
   \/ Reset \/ Codec \/ DecodeEv \/ HexFmtEv \/ HexParseEv
   \/ SortedBlock \/ AncPair \/ RunBlock
@@ -108,6 +120,7 @@ TraceNext ==
   \/ Anchors \/ AnchorsPin \/ AnchorsEnd \/ RelConfig \/ RelFact \/ CoverFact \/ RelEnd \/ ChildGeom
   \/ QuintMap \/ QuintMapPin \/ Call
   \/ ProjStep \/ Pair \/ Purity \/ Instances
+  \/ FaceCentre \/ FaceAngle \/ Nearest \/ FrameCells \/ FrameEnd \/ Reflected \/ GoldenGeom \/ GoldenLookup
   \/ Lookup \/ Interior1 \/ Interior2 \/ Centre \/ Owners \/ MeshCells \/ MeshEnd \/ Area \/ AreaMeta \/ Boundary
 
 TraceSpec == TraceInit /\ [][TraceNext]_vars
